@@ -759,6 +759,24 @@ fn main() {
             }
         }
     }
+    // Always: the deepest samples and a fixed family per configuration (an accept with an invalid
+    // signature followed by valid ones; a failed duplicate verdict; an adoption followed by a
+    // stranger's edit and a further proposal).
+    for s in &res.samples {
+        todo.insert(serde_json::to_string(s).unwrap());
+    }
+    for f in fixes() {
+        let n = f.n_del as u8;
+        let p = |by: u8, doc: u8| Ev::Propose { by, doc, parent: Par::Cur, sig: Sig::Valid };
+        let acc = |by: u8, sig: Sig| Ev::Accept { by, rev: 1, sig };
+        for h in [
+            vec![Ev::Cfg(n), p(0, 1), acc(1, Sig::WrongBlob), acc(2, Sig::Valid), acc(3, Sig::Garbage)],
+            vec![Ev::Cfg(n), p(0, 1), Ev::Reject { by: 0, rev: 1 }, acc(1, Sig::Valid), acc(2, Sig::Valid)],
+            vec![Ev::Cfg(n), p(0, 1), acc(1, Sig::Valid), acc(2, Sig::Valid), Ev::Edit { by: n, rev: 1 }, p(1, 2), Ev::Redact { by: 1, rev: 2 }],
+        ] {
+            todo.insert(serde_json::to_string(&h).unwrap());
+        }
+    }
     let todo: Vec<String> = todo.into_iter().collect();
     let st = mcx::sweep::threads(
         todo.len() as u64,
@@ -779,7 +797,7 @@ fn main() {
          distinct = distinct canonical states",
     );
     cov.insert("conformance_replays".into(), json!(st.evaluations));
-    cov.insert("conformance_stride".into(), json!(if stride > 0 { format!("1 in {stride} of all executed histories (by hash): {stride_n}") } else { "violating witnesses only".to_string() }));
+    cov.insert("conformance_stride".into(), json!(if stride > 0 { format!("1 in {stride} of all executed histories (by hash): {stride_n}; plus violating witnesses, deepest samples and a fixed family") } else { "violating witnesses, deepest samples and a fixed family".to_string() }));
     cov.insert(
         "config".into(),
         json!(fixes().iter().map(|f| json!({"delegates": f.n_del, "stranger": 1, "documents": f.menu.iter().map(|d| f.docs[*d as usize].what).collect::<Vec<_>>(), "max_revisions_incl_root": f.max_revs, "depth": f.depth, "deviations": f.max_devs})).collect::<Vec<_>>()),
